@@ -45,13 +45,9 @@ Section Tree.
     | _ => false
     end.
 
-  (* a Color node says which colour, an Offset node says r or delta *)
-  Definition op_complete (o : scadop) : bool :=
-    match o with
-    | Color None None None _ => false
-    | Offset None None _ => false
-    | _ => true
-    end.
+  (* every node writes its header (since the fix of the header-less Color / Offset nodes); kept as a definition so that the
+     statements that mention it stay as they were *)
+  Definition op_complete (o : scadop) : bool := true.
 
   (* proper nested induction *)
   Section Ind.
